@@ -1199,6 +1199,21 @@ impl<H: BuildHasher + Default + Clone + std::fmt::Debug> Ex<H> {
                     return Res::FaultPanic;
                 }
             }
+            // the references iter_mut hands out outlive the iterator: a priority
+            // written after the iterator was consumed and dropped (heap rebuilt)
+            "latewrite" => {
+                let r: usize = num(tok(t, 1));
+                let w = opt_prio(tok(t, 2));
+                on_q!(self.regs.get_mut(r), out, q => {
+                    let mut v: Vec<(&mut It, &mut Pr)> = q.iter_mut().collect();
+                    if let (Some(e), Some(w)) = (v.first_mut(), w) {
+                        e.1 .0 = w.0;
+                        e.1 .1 = w.1;
+                    }
+                    drop(v);
+                });
+                out.push_str("unit");
+            }
             // ---- whole-queue operations ---------------------------------
             "clear" => {
                 let r: usize = num(tok(t, 1));
